@@ -9,6 +9,9 @@ from lib import c10c11 as L
 
 PATHS = ["/", "/hooks", "/hooks/partner", "/hooks/partner/x", "/hooksx", "/jobs", "/jobs/deploy", "/jobs/nightly",
          "/a", "/a/b", "/a.b", "/api/v1", "/API/v1", "/hook"]
+# further overlapping paths for the LARGE route tables (13-26 routes, inbound / outbound / internal interleaved): tables longer than
+# any small-collection threshold of a sort or search
+MORE_PATHS = ["/t", "/t/s", "/t/s/s", "/t/s/s/s", "/u", "/u/v", "/u/v/w", "/x", "/x/y", "/hooks/partner/x/y", "/jobs/deploy/now", "/a/b/c"]
 HOST_PATTERNS = ["example.com", "*.example.com", "*", "api.example.com:8443", "Example.COM.", "[::1]", "[2001:db8::1]:443",
                  "192.0.2.1", "*.com", "other.org", "sub.api.example.com", "*.api.example.com"]
 REQ_HOSTS = ["example.com", "api.example.com", "a.b.example.com", "evilexample.com", "example.com.", "api.example.com.",
@@ -65,8 +68,12 @@ def gen_match(rng):
 
 def gen_config(rng, ci):
     """A Hookaidofile with inbound / outbound / internal routes in random order and overlapping paths."""
-    n = rng.randint(2, 8)
-    paths = rng.sample(PATHS, n)
+    if ci % 4 == 3:
+        n = rng.randint(13, len(PATHS) + len(MORE_PATHS))
+        paths = rng.sample(PATHS + MORE_PATHS, n)
+    else:
+        n = rng.randint(2, 8)
+        paths = rng.sample(PATHS, n)
     blocks = []
     meta = []
     pulln = 0
@@ -226,7 +233,7 @@ def gen_requests(rng, n_http, n_direct):
     reqs = []
 
     def mk(mode):
-        p = rng.choice(PATHS)
+        p = rng.choice(PATHS) if rng.random() < 0.7 else rng.choice(MORE_PATHS)
         target = rng.choice(path_variants(rng, p)) if rng.random() < 0.6 else p
         qs = []
         r = rng.random()
